@@ -31,6 +31,16 @@ CLAIMED = {
    "Sequences of up to 200 parse calls (file, expression, globals, compile) execute inside one simulated process. The simulator owns the task table and the channel model, so 'the scanner has exited when the call returns' is decided exactly at quiescence - no goroutine-count polling, no sleeps. Both schedules that matter (scanner blocked in a send when the parser gives up; scanner not yet there) are forced. Exhaustive over every prefix of the corpus, seeded beyond.",
    "Trusts the channel enabledness model of verif/simrt (differentially tested against native channels) and that soy blocks only on channels (the instrumenter lists any sync.WaitGroup/Cond use as un-modelled).",
    "DESIGN.md section 4 C18"),
+ "C08": ("exploration",
+   "operation histories over one long-lived compiled bundle checked step by step against a fresh-compile reference model, plus structural digests of every shared object after every operation (fault operations included)",
+   "One compiled bundle, one set of data/$ij maps and catalogues live through a seeded history of renders, faulted renders (failing writer at write k, user function panicking at invocation n, ill-typed data), JS generation, re-compilation and reused Renderer values, with 0-2 obligatory directives configured. After every operation outputs must equal a model computed on a freshly compiled bundle and a reflection digest of data, $ij, catalogue, registry (every AST node), soy.Bundle and global registries must be unchanged. Histories run on the plain and on the instrumented build. Seeded sampling of histories and bundles.",
+   "Trusts the reflection digest to see every field that matters (it walks exported and unexported fields, slices up to len, maps order-independently; it does not look into spare slice capacity) and the generator to reach the features that carry state (it is valid by construction: a compile failure is a discard and is counted).",
+   "DESIGN.md section 4 C08"),
+ "C12": ("fault_enumeration",
+   "write-fault enumeration: for every generated render, one faulted run per write call index (sticky, transient, partial) and per byte capacity of the fault-free run, against a recording fault-injecting io.Writer",
+   "The failure point is enumerated exhaustively per case over every write call and every byte offset of the fault-free run (sampled only beyond 600 calls / 1024 bytes, counted separately), in sticky, transient and partial modes - transient faults are what exposes an ignored error that a later checked write would otherwise mask. Oracle: failed write => non-nil error; accepted bytes are a prefix; nil => complete output. Candidates are confirmed on freshly compiled bundles so that a history dependence (C08) cannot alarm here. Cases are seeded.",
+   "Trusts the fault-free run on a fresh compile as reference output and the classification of write calls (entity / escaper chunk / raw text / value) used only for the reach probes.",
+   "DESIGN.md section 4 C12"),
 }
 
 def main():
@@ -49,7 +59,7 @@ def main():
             "technique": tech,
         })
     na = [{"property_id": k, "reason": v} for k, v in sorted(NA.items())]
-    planned = ["C06", "C08", "C09", "C10", "C12", "C13"]
+    planned = ["C06", "C09", "C10", "C13"]
     for p in planned:
         if p not in CLAIMED:
             na.append({"property_id": p, "reason": "simulation check designed (DESIGN.md section 4) but not built yet in this tree; not claimed until its check exists"})
